@@ -339,6 +339,9 @@ func F§() {
 		ys = append(ys, x)
 	}
 	zs := append(xs, ys...)
+	for range xs {
+		ys = append(ys, xs...)
+	}
 	m := map[int][]int{}
 	m[0] = append(m[1], 1)
 	_, _ = zs, ys
@@ -1396,6 +1399,73 @@ type T§ struct {
 	//b int
 	/* c */ c int
 }
+### commentfuzz | comments
+//«c»
+func F§() {
+	//«c»
+	//«c»
+	x := 1 //«c»
+	_ = x
+	/*«c»*/
+}
+
+//«c»
+//«c»
+type T§ struct {
+	//«c»
+	a int //«c»
+	//«c»
+	//«c»
+	b int
+}
+
+//«c»
+var V§ = 1
+
+// V2§ is
+//«c»
+const V2§ = 1
+
+var (
+	//«c»
+	V3§ = 1
+)
+
+// G§ does.
+//
+//«c»
+//«c»
+func G§() {}
+
+//«c»
+
+//«c»
+func H§() {} //«c»
+
+//«c»
+type (
+	//«c»
+	A§ int
+	//«c»
+	B§ = string
+	//«c»
+	//«c»
+	C§ interface {
+		//«c»
+		M() //«c»
+	}
+)
+
+//«c»
+func (A§) M() {}
+
+// J§ does.
+//«c»
+func J§(
+	//«c»
+	a int, //«c»
+) {
+}
 ### shadowing | namesake | free
 type string§ = string
 func F§(fmt, os, strings, filepath, sort, regexp, log, http, time, io, errors, flag, bytes, sync int) int {
@@ -1587,6 +1657,40 @@ func F§(xs []int, p *GS, m map[string]int, s string) bool {
 		return true
 	}
 	return len(xs) != 0 && xs[0] == 1 || s != "" && s[0] == 'a'
+}
+### dupimports | imports | free,imports=sa1:strconv;sa2:strconv;sa3:strconv;ba1:bufio;ba2:bufio;ca1:container/list;ca2:container/list;da1:math/bits;da2:math/bits
+func F§(sa1, ba2 string) {
+	_ = sa1 + sa2.Itoa(1) + sa3.Itoa(2)
+	var _ *ba1.Reader
+	var _ *ca1.List
+	var _ *ca2.List
+	_ = da1.Len(1) + da2.Len(2)
+	_ = ba2
+	{
+		ca1, ca2, da1 := 1, 2, 3
+		_, _, _ = ca1, ca2, da1
+	}
+}
+func G§(da2, sa3 int) (ba1 int) {
+	sa2 := 1
+	return sa2
+}
+func H§() {
+	_ = sa1.Itoa(3)
+	var _ *ba2.Writer
+}
+### multiopts | exprs
+type opt§ func(*int)
+func withA§(x int) opt§ { return func(*int) {} }
+func withB§(x int) opt§ { return func(*int) {} }
+func withC§(x int) opt§ { return func(*int) {} }
+func apply§(name string, o ...opt§) {}
+func F§() {
+	apply§("x", withA§(1), withB§(2), withA§(1), withB§(2), withC§(3), withC§(3), withA§(2))
+	apply§("y", withA§(1), withA§(1))
+	x, y, z := «i», «i», «i»
+	_ = x == x || y == y || z == z || x-x > 0 || y-y > 0
+	_ = []any{x + 0, 0 + y, z * 1, x / 1}
 }
 ### initclause | stmts
 func F§() {
